@@ -185,6 +185,7 @@ def run(ctx) -> None:
     # ---- R1 ---------------------------------------------------------------------
     check_wait_freshness(ctx, "C17.R1")
     check_state_copy_keeps_record(ctx, "C17.R2")
+    check_consumed_signals_recorded(ctx, "C17.R2")
 
     # ---- R2 ---------------------------------------------------------------------
     from sa.effects import Effects
@@ -295,6 +296,46 @@ def run(ctx) -> None:
     check_wrapper_offers_no_inner_signals(ctx, "C17.R5")
 
 
+def check_consumed_signals_recorded(ctx, rule: str) -> None:
+    """Whenever a node's execution is recorded — run or served from the cache — the record holds, for every name the
+    node waits for, the version read from the step's state: the record is what 'produced again since' is measured
+    against, so an empty record makes the waiter start again on the next change of any input."""
+    db, rep = ctx.db, ctx.rep
+    n_rec = 0
+    for ss in superstep_funcs(db):
+        fs = [ss] + [ch for ch in ss.children.values()]
+        recs = [(f, c) for f in fs for c in db.calls_in(f) if (dotted(c.func) or "").split(".")[-1] == "NodeExecution"]
+        for f, c in recs:
+            kw = {k.arg: k.value for k in c.keywords}
+            a = kw.get("wait_for_versions")
+            if not isinstance(a, ast.Name):
+                rep.add(rule, f"{ss.qname}:consumed-signals-recorded", False, f"{f.module.rel}:{c.lineno}", f"the execution record is built with wait_for_versions={src(a) if a is not None else 'nothing'}")
+                n_rec += 1
+                continue
+            vn = a.id
+            n_rec += 1
+            bad = None
+            n_src = 0
+
+            def good(v: ast.AST) -> bool:
+                return isinstance(v, ast.DictComp) and len(v.generators) == 1 and src(v.generators[0].iter).endswith(".wait_for") and not v.generators[0].ifs and "get_version" in src(v.value) or (isinstance(v, ast.DictComp) and ".versions" in src(v.value) and src(v.generators[0].iter).endswith(".wait_for") and not v.generators[0].ifs)
+
+            for g in fs:
+                for x in walk_local(g.node):
+                    if isinstance(x, ast.Assign) and any(isinstance(t, ast.Name) and t.id == vn for t in x.targets):
+                        n_src += 1
+                        if not good(x.value):
+                            bad = bad or x
+                    # the gathered coroutine hands the record fields back as a tuple: same position as the unpacking
+                    if isinstance(x, ast.Return) and isinstance(x.value, ast.Tuple) and len(x.value.elts) == 4:
+                        e = x.value.elts[3]
+                        if not (isinstance(e, ast.Name) and e.id == vn) and not good(e):
+                            bad = bad or x
+            rep.add(rule, f"{ss.qname}:consumed-signals-recorded", bad is None and n_src >= 1, f"{ss.module.rel}:{(bad or c).lineno}", "every recorded execution carries the version of each awaited name, on executed and cache-hit paths alike" if bad is None and n_src else f"'{src(bad)[:80] if bad is not None else '?'}' records an execution without the versions of the names the node waits for (e.g. on a cache hit): the consumed version then reads as 0, so a cached waiter starts again as soon as one of its inputs changes although its signal was not produced again")
+    if n_rec < 2:
+        raise AnalysisError("execution records of the supersteps not found")
+
+
 def check_wrapper_offers_no_inner_signals(ctx, rule: str) -> None:
     """A nested run returns values, never sentinels (filter_outputs drops them), so a nested-graph node cannot produce
     the ordering signals emitted inside it.  It must not *offer* them either: a name listed in its outputs passes the
@@ -305,11 +346,14 @@ def check_wrapper_offers_no_inner_signals(ctx, rule: str) -> None:
     init = gn.methods["__init__"]
     outs = [n for n in walk_local(init.node) if isinstance(n, ast.Assign) and any(src(t) == "self.outputs" for t in n.targets)]
     defs = {nm: ds[0].value for nm, ds in db.local_defs(init).items() if len(ds) == 1 and getattr(ds[0], "value", None) is not None}
-    exprs = [o.value for o in outs]
-    for _ in range(3):
-        exprs += [defs[x.id] for e in list(exprs) for x in ast.walk(e) if isinstance(x, ast.Name) and x.id in defs and defs[x.id] not in exprs]
-    txt = " ".join(src(e) for e in exprs)
-    filtered = "_get_emit_only_outputs" in txt or "data_outputs" in txt or "emit" in txt.lower() and "not in" in txt
+    filtered = True
+    for o in outs:  # every assignment on its own: one unfiltered branch (e.g. 'a selection is taken as it is') offers signals
+        exprs = [o.value]
+        for _ in range(3):
+            exprs += [defs[x.id] for e in list(exprs) for x in ast.walk(e) if isinstance(x, ast.Name) and x.id in defs and defs[x.id] not in exprs]
+        txt = " ".join(src(e) for e in exprs)
+        if not ("_get_emit_only_outputs" in txt or "data_outputs" in txt or "emit" in txt.lower() and "not in" in txt):
+            filtered = False
     rep.add(rule, f"{gn.qname}:offers-no-inner-signals", bool(outs) and filtered, init.loc(), "the wrapper's outputs exclude the wrapped graph's emit-only names" if outs and filtered else "a nested-graph node lists the ordering signals emitted inside it among its outputs although its executor can never produce them: Graph([inner.as_node(), step_b(wait_for='a_done')]) is accepted and step_b never runs; with map_over the result contains 'a_done': [None, None]")
 
 
